@@ -14,14 +14,14 @@ inline std::string SchedCfgStr(Rng & r)
    const int strategy = (int) r.below(10) < 6 ? 0 : ((int) r.below(2) ? 1 : 2);
    static const int ps[] = {2, 5, 10, 20, 35, 50};
    return " strategy=" + I(strategy) + " pswitch=" + I(ps[r.below(6)]) + " pctd=" + I(1 + r.below(3)) + " pcts=" + I(50 + r.below(400)) + " pto=" + I(r.oneIn(4) ? 0 : (1 + r.below(10))) + " schedseed=" + U(r.u64() & 0xffffffffffffULL)
-        + " realcv=" + I(r.oneIn(3) ? 1 : 0) + " pspcv=" + I(r.oneIn(2) ? 0 : (1 + r.below(8)));
+        + " realcv=" + I(r.oneIn(3) ? 1 : 0) + " pspcv=" + I(r.oneIn(2) ? 0 : (1 + r.below(8))) + " peintr=" + I(r.oneIn(3) ? (1 + r.below(5)) : 0);
 }
 inline thr::SchedConfig SchedCfgFrom(const Cfg & cfg)
 {
    thr::SchedConfig sc;
    sc.strategy = (int) cfg.i("strategy", 0); sc.pSwitchPct = (int) cfg.i("pswitch", 30); sc.pctDepth = (int) cfg.i("pctd", 2); sc.pctSteps = (int) cfg.i("pcts", 300);
    sc.pTimeoutPct = (int) cfg.i("pto", 5); sc.schedSeed = (uint64_t) cfg.i("schedseed", 1); sc.stepCap = (uint64_t) cfg.i("stepcap", 40000);
-   sc.realCv = (cfg.i("realcv", 0) != 0); sc.pSpuriousCvPct = (int) cfg.i("pspcv", 0);
+   sc.realCv = (cfg.i("realcv", 0) != 0); sc.pSpuriousCvPct = (int) cfg.i("pspcv", 0); sc.pEintrPct = (int) cfg.i("peintr", 0);
    return sc;
 }
 inline void FillSchedStats(RunResult & res)
@@ -30,7 +30,7 @@ inline void FillSchedStats(RunResult & res)
    res.stats.inc("sched_decisions", s.steps); res.stats.inc("context_switches", s.switches); res.stats.inc("f.preempt", s.preemptions); res.stats.inc("f.timeout_fires", s.timeoutsFired);
    res.stats.inc("f.spurious_poll_wake", s.spuriousPolls); res.stats.inc("clock_advances", s.clockAdvances); res.stats.max("max.threads", s.maxThreads);
    if (s.preemptions <= 2) res.stats.inc("p.low_preemption_schedule");
-   res.stats.inc("cv_waits_real_condition_variable_code", s.cvWaits); res.stats.inc("cv_signals", s.cvSignals); res.stats.inc("f.spurious_condvar_wake", s.cvSpurious); res.stats.inc("p.cv_signal_without_waiter", s.cvSignalsNoWaiter);
+   res.stats.inc("cv_waits_real_condition_variable_code", s.cvWaits); res.stats.inc("cv_signals", s.cvSignals); res.stats.inc("f.spurious_condvar_wake", s.cvSpurious); res.stats.inc("f.eintr", s.eintrs); res.stats.inc("p.cv_signal_without_waiter", s.cvSignalsNoWaiter);
    res.hash = thr::DecisionHash();
    res.simMicros = thr::Now() - 1000000;
 }
